@@ -356,31 +356,65 @@ func (e *Engine) panicVC(st *State, what string, bad *Term) bool {
 	return e.vc(st, "panic", what, bad)
 }
 
-// enumValues enumerates the feasible values of t under the path condition (at most limit of them).
+// enumValues enumerates the feasible values of t under the path condition (at most limit of them) by splitting the
+// unsigned range at every model value: n values cost at most 2n+1 small queries, none with a growing exclusion list.
 func (e *Engine) enumValues(st *State, t *Term, limit int) (vals []uint64, complete bool) {
 	if t.IsConst() {
 		return []uint64{t.Val}, true
 	}
-	excl := B(true)
-	for len(vals) < limit {
-		res, m := e.sol.Check(append(append([]*Term(nil), st.pc...), excl), []*Term{t})
+	maxV := ^uint64(0)
+	if t.W < 64 {
+		maxV = (uint64(1) << uint(t.W)) - 1
+	}
+	type rng struct{ lo, hi uint64 }
+	work := []rng{{0, maxV}}
+	complete = true
+	for len(work) > 0 {
+		r := work[len(work)-1]
+		work = work[:len(work)-1]
+		if len(vals) >= limit || (!e.deadline.IsZero() && time.Now().After(e.deadline)) {
+			// is anything left in the remaining ranges?
+			pcs := append([]*Term(nil), st.pc...)
+			res, _ := e.sol.Check(append(pcs, Cmp("bvuge", t, C(r.lo, t.W)), Cmp("bvule", t, C(r.hi, t.W))), nil)
+			if res != "unsat" {
+				complete = false
+				if len(vals) >= limit {
+					continue
+				}
+				e.stopped = true
+				return vals, false
+			}
+			continue
+		}
+		pcs := append([]*Term(nil), st.pc...)
+		if r.lo > 0 {
+			pcs = append(pcs, Cmp("bvuge", t, C(r.lo, t.W)))
+		}
+		if r.hi < maxV {
+			pcs = append(pcs, Cmp("bvule", t, C(r.hi, t.W)))
+		}
+		res, m := e.sol.Check(pcs, []*Term{t})
 		if res == "unsat" {
-			return vals, true
+			continue
 		}
 		if res != "sat" {
 			e.unknowns++
 			return vals, false
 		}
 		v, ok := m[e.sol.pr.name(t)]
-		if !ok {
+		if !ok || v < r.lo || v > r.hi {
 			e.unknowns++
 			return vals, false
 		}
 		vals = append(vals, v)
-		excl = And(excl, Not(Cmp("=", t, C(v, t.W))))
+		if v > r.lo {
+			work = append(work, rng{r.lo, v - 1})
+		}
+		if v < r.hi {
+			work = append(work, rng{v + 1, r.hi})
+		}
 	}
-	res, _ := e.sol.Check(append(append([]*Term(nil), st.pc...), excl), nil)
-	return vals, res == "unsat"
+	return vals, complete
 }
 
 // concretize forks st so that SSA value v (currently the symbolic term t) is a constant in each successor.
